@@ -6,6 +6,10 @@ import json, os, re, random, subprocess, time, collections, shutil
 import alverif as A
 
 
+VALID_CORPORA = ("C01", "C02a", "C02b", "C02c", "C02d", "C02e", "C02f", "C02g", "C02h", "C02i", "C02j", "C03", "C04a", "C04b", "C04c", "C04d", "C04e", "C04f",
+                 "C05", "C05m", "C10a", "C10x", "C11s", "C11t")
+
+
 def capacity_inputs():
     key = A.spec_hash("AsmLexical")
     path = os.path.join(A.BUILD, "corpus", "LEX-%s.ndjson" % key)
@@ -101,6 +105,14 @@ def run(prop, tier, replay=None):
         recs = [{"id": "cap-%d" % k, "prop": "C09", "status": "Unconstrained", "text": render_abstract(x["ab"]), "ab": x["ab"], "model": x["model"]} for k, x in enumerate(inputs)]
         for k, s in enumerate(nasty_strings(rnd, 4000 if tier == "quick" else 60000)):
             recs.append({"id": "str-%d" % k, "prop": "C09", "status": "Unconstrained", "text": s.replace("\x00", " ")})
+        # well-formed lines are inputs too: a class-covering sample of every TLC-enumerated corpus (the encoder paths run instrumented)
+        nval = 0
+        for cname in VALID_CORPORA:
+            crecs = [json.loads(l) for l in open(A.corpus(cname))]
+            for r in A.sample(crecs, 450 if tier == "quick" else 6000, A.SEED + 9):
+                txt = A.toktext(r["toks"]) if "toks" in r else A.render(r["ast"])
+                recs.append({"id": "val-%d" % nval, "prop": "C09", "status": "Unconstrained", "text": txt})
+                nval += 1
     os.environ["ASAN_OPTIONS"] = "detect_leaks=0:abort_on_error=1"
     os.environ["UBSAN_OPTIONS"] = "halt_on_error=1:abort_on_error=1"
     events = A.run_lines(recs, ctx="solo0,mid", modes="plain,fit,count", opts="two", variant="san")
@@ -133,10 +145,10 @@ def run(prop, tier, replay=None):
     cov = {"evaluations": judged, "distinct_nontrivial": len({e["text"] for e in events}),
            "rule": "TLC checks InBounds on the capacity model of spec/AsmLexical.tla for every abstract input (kept characters x operands x token lengths) and emits them; each is rendered "
                    "to a concrete line and run (fresh instance, plain/fitting/counting, solo and inside a program) on the ASan+UBSan build with the cursor hooks installed; TLC compares the "
-                   "reported cursors with the model and with the buffer capacities. Plus boundary strings and seeded random strings (character-level and grammar-level). A case is one "
+                   "reported cursors with the model and with the buffer capacities. Plus boundary strings, seeded random strings (character-level and grammar-level) and a class-covering sample of every TLC-enumerated corpus of well-formed and ill-formed lines (C01-C05, C10, C11). A case is one "
                    "input string; distinct_nontrivial counts distinct strings.",
            "samples": [{"text": e["text"][:120], "model": e.get("model"), "hooks": e["runs"][0]["hk"] if e["runs"] else None} for e in events[:2] + events[-2:]],
-           "capacity_inputs": ncap, "strings": len(events) - ncap, "model_drift": dict(drift), "exhaustive": False}
+           "capacity_inputs": ncap, "strings": sum(1 for e in events if e["id"].startswith("str-")), "corpus_lines": sum(1 for e in events if e["id"].startswith("val-")), "model_drift": dict(drift), "exhaustive": False}
     if not replay:
         A.write_evidence(prop, tier, "exploration", cov, wall, len(viol),
                          ["out-of-bounds reads by libc string functions are only seen by ASan (observation channel)", "the input space is infinite: boundary + random strings, not exhaustive",
